@@ -97,13 +97,26 @@ class Run:
                                     "discharged": 0, "instances": 0})
         self.rules[rid]["instances"] += n
 
-    def floor(self, what: str, got: int, least: int):
-        """A rule matching fewer sites than confirmed by hand is a broken run."""
-        self.extra.setdefault("floors", {})[what] = {"got": got, "floor": least}
+    def floor(self, what: str, got: int, least: int, hard: bool = False):
+        """Instance counts confirmed by hand on the pinned tree.
+
+        hard floors guard the front ends (classes, functions, kernels, C
+        functions parsed; call sites resolved): falling below them means the
+        analysis itself broke -> ANALYSIS-ERROR.  All other floors count code
+        *patterns* a refactoring may legitimately remove or move; falling below
+        them only means that a rule had less to decide, which is recorded under
+        `unknowns` in the evidence and never fails a run."""
+        self.extra.setdefault("floors", {})[what] = {"got": got, "floor": least,
+                                                     "hard": hard}
         if got < least:
-            self.errors.append(
-                f"floor not reached: {what}: analysed {got} < {least} "
-                f"(anchor vanished or front end broke)")
+            if hard:
+                self.errors.append(
+                    f"floor not reached: {what}: analysed {got} < {least} "
+                    f"(anchor vanished or front end broke)")
+            else:
+                self.unknowns.append(
+                    f"{what}: {got} instances found where {least} were confirmed on "
+                    f"the pinned tree - the rule decided less than it used to")
 
     def error(self, msg: str):
         self.errors.append(msg)
